@@ -404,13 +404,15 @@ def rule_value_qualifier(run):
     f = cu.func("_Value.__call__")
     from .c07 import guards as _guards
     n = 0
+    tv = [b["__t"] for _n, b in P.find(f.node, "__t = self._T")]
+    tname = tv[0] if tv else "T"
     for r in walk_local(f.node):
         if isinstance(r, ast.Return) and isinstance(r.value, ast.Name) and r.value.id == "arg":
             n += 1
             g = _guards(f.node, r, cu.parents)
-            ok = any(x == "if isinstance(arg, Temporary[T])" for x in g)
+            ok = any(str(x) == f"if isinstance(arg, Temporary[{tname}])" for x in g)
             run.ob(ok, "_Value.__call__", file=cu.rel, line=r.lineno, detail=f"pass-through#{n}", expected="returned unchanged only if isinstance(arg, Temporary[T])", found=str([str(x) for x in g][-2:]))
-    conv = [c for c in calls_in(f.node) if src(c.func) == "Temporary[T]"]
+    conv = [c for c in calls_in(f.node) if src(c.func) == f"Temporary[{tname}]"]
     run.ob(len(conv) >= 2 and n >= 1, "_Value.__call__", file=cu.rel, line=f.node.lineno, detail="converts", expected="run-time operands of another type are converted with Temporary[T](arg)", found=f"{len(conv)} conversions, {n} pass-through")
     run.end()
 
